@@ -118,7 +118,7 @@ class Probe:
             extra = ""
         elif self.kind == "rec":
             fs = self.case["new" if new else "old"]
-            ty = {"a": "int", "b": "string", "c": "float?", "z": "double"}
+            ty = {"a": "int", "b": "string", "c": "float?", "z": "double", "x": "float", "y": "float", "w": "float"}
             dty = {"l:9": "long", "s:dd": "string"}
             lines = []
             for f in fs:
